@@ -61,7 +61,9 @@ def h12_sim(c, n=2):
                     o, d = ss.resting_limit(c, "o%d" % i, fl, market, strategy, 100 + i, status=lc.TRANSIENT[kind], price=2.0, persistence="LAPSE",
                                             max_frags=0, allow_cancelled=False, side="BACK")
                     if kind == OrderPackageType.UPDATE:
-                        o.order_type.persistence_type = "PERSIST"
+                        # (the request asks for PERSIST or - also on a market without starting prices - MARKET_ON_CLOSE)
+                        o.order_type.persistence_type = c.choose("o%d_new_persistence" % i, ["PERSIST", "MARKET_ON_CLOSE"])
+                        market.market_book.market_definition.bsp_market = c.choose("bsp_market", [True, False]) if i == 0 else market.market_book.market_definition.bsp_market
                     elif kind == OrderPackageType.REPLACE:
                         o.update_data["new_price"] = 3.0
                     elif kind == OrderPackageType.CANCEL:
